@@ -483,6 +483,12 @@ def common_summaries():
             raise Unsupported(f"string comparison on {a!r} / {b!r} in {fn}")
         return [(st, Bool(a.s == b.s if fn.endswith('eq') else a.s != b.s))]
 
+    @reg(r'^<(std::io::)?(error::)?ErrorKind as PartialEq>::(eq|ne)$')
+    def errkind_eq(ex, st, fn, argv):
+        a, b = as_enum(ex, st, deref(ex, st, argv[0])), as_enum(ex, st, deref(ex, st, argv[1]))
+        e = a.disc_bv() == b.disc_bv()
+        return [(st, Bool(e if fn.endswith('eq') else z3.Not(e)))]
+
     # text predicates / transformers the encoding does not interpret: uninterpreted functions of the text (congruent, nothing else)
     _UF = {}
 
